@@ -34,8 +34,11 @@ RULE = ('every set partition of n<=5 nodes (n<=6 thorough), written with restric
         '{zero-based, negative, gaps, large (2^40+), huge (adjacent int64 at +-2^62), permuted block order, random injective mix} x random matrices with small '
         'dyadic weights (undirected weighted / directed / signed, several densities, isolated nodes); pairs of partitions '
         '(all pairs n<=4, n<=5 thorough; random pairs beyond) for partition_distance; stacks of 1-4 partitions for agreement; '
-        'random partitions of n<=9; n = 1; non-zero diagonals (30 %); labels also as list / float64 / int32; gateway_coef_sign with both centrality '
-        'types; ls2ci on shuffled block lists (with an empty block) and the empty / IndexError cases; agreement with buffsz that splits the stack '
+        'random partitions of n<=9; n = 1; non-zero diagonals (30 %); labels also as list / float64 / int32, and as 2-D arrays: every consumer gets the '
+        'base labels as a 1 x N and an N x 1 array (it may refuse them - counted under label-layout-refused:* - but a returned value must be '
+        'the 1-D value; a quarter of the base cases), partition_distance gets all eight 2-D layout pairs (1xN/1xN, Nx1/Nx1, 1xN/1-D, 1-D/1xN must return the 1-D result; Nx1 '
+        'paired with 1-D or 1xN may raise, a silently different value is the open finding partition_distance:mixed-layout) on 20 % of its pairs; gateway_coef_sign with both centrality '
+        'types; ls2ci on shuffled block lists (with an empty block) and the empty / IndexError cases, its zeroindexed flag spelled True / 1 / np.True_ and False / 0 / np.False_ in rotation; agreement with buffsz that splits the stack '
         'unevenly; partition_distance with 1100 blocks. non-trivial = at least two blocks and a relabelling that changes a label; '
         'distinct by hash of (function, matrix, labels)')
 ASSUMES = ['weights are small dyadic rationals: the sums the model treats as exact are exact in binary64; quotients, sqrt and '
@@ -305,6 +308,9 @@ def repaired_gateway(bct, fname='gateway_coef_sign', diff_file='gateway_coef_sig
         return None
 
 
+ZI_ROT = [0]
+
+
 # ---------------------------------------------------------------- the check
 def run(ctx):
     import bct
@@ -387,6 +393,17 @@ def run(ctx):
                         ctx.check(close(out_alt, out), key0 + ':label-container', 'result differs when the labels come as %s: %s vs %s' % (an, tolist(out_alt), tolist(out)), dict(case, container=an))
                     except Exception as e:
                         ctx.fail(key0 + ':label-container', 'raised %r when the labels come as %s' % (e, an), dict(case, container=an))
+                    # the label vector as a 2-D array (1 x N, N x 1): a consumer may refuse it, but must not return another value
+                    for shp, nm2 in ((((1, -1), '1xN'), ((-1, 1), 'Nx1')) if ctx.rng.random() < 0.25 else ()):
+                        try:
+                            with no_variants():
+                                out_2d = call(f, np.array(labels, dtype=np.int64).reshape(shp), _t=3.0)
+                        except Exception:
+                            ctx.count('label-layout-refused:%s:%s' % (key0, nm2)); continue
+                        ctx.count('label-layout-accepted:%s:%s' % (key0, nm2))
+                        ok2 = close(np.ravel(np.asarray(out_2d, dtype=float)), np.ravel(np.asarray(out, dtype=float))) if not isinstance(out, tuple) else \
+                            (isinstance(out_2d, tuple) and len(out_2d) == len(out) and all(close(np.ravel(np.asarray(x, dtype=float)), np.ravel(np.asarray(y, dtype=float))) for x, y in zip(out_2d, out)))
+                        ctx.check(ok2, key0 + ':label-container', 'result differs when the labels come as a %s array: %s vs %s' % (nm2, tolist(out_2d), tolist(out)), dict(case, container=nm2))
                     want = orc(labels)
                     if fname == 'diversity_coef_sign' and K == 1:
                         pass            # log(1) = 0 in the denominator: undefined for a single module
@@ -543,8 +560,12 @@ def run(ctx):
                 ctx.case(case, nontrivial=len(sh) >= 2)
                 ctx.count('ls2ci:%s' % ('empty-block' if rep else 'shuffled'))
                 sh0 = [list(b) for b in sh]
+                # the flag in rotating spellings of the same truth value (bool singleton, Python int, NumPy bool scalar)
+                ZI_ROT[0] += 1
+                zsp, zval = ([('False', False), ('0', 0), ('np.False_', np.False_)], [('True', True), ('1', 1), ('np.True_', np.True_)])[zi][ZI_ROT[0] % 3]
+                case['zeroindexed_spelled'] = zsp; ctx.count('ls2ci:zeroindexed=' + zsp)
                 try:
-                    out = bct.ls2ci(sh, zeroindexed=zi)
+                    out = bct.ls2ci(sh, zeroindexed=zval)
                 except Exception as e:
                     ctx.fail('ls2ci:raises', 'raised %r' % (e,), case); continue
                 ctx.check(sh == sh0, 'ls2ci:pure', 'the list was modified', case)
@@ -630,6 +651,27 @@ def run(ctx):
                     ctx.check(close(alt, (vin, mi)), 'partition_distance:label-container', 'result differs when the labels come as %s: %r' % (an, tolist(alt)), dict(case, container=an))
                 except Exception as e:
                     ctx.fail('partition_distance:label-container', 'raised %r when the labels come as %s' % (e, an), dict(case, container=an))
+        # layouts of the label vectors: N x 1 (as documented), 1 x N (what scipy.io.loadmat gives for a MATLAB row vector), 1-D.  The node
+        # count is the number of LABELS, whatever the shape.  Same layout on both sides, or 1-D with 1 x N: must return the 1-D result.
+        # N x 1 paired with 1-D / 1 x N: raising is acceptable, a silently different value is not (open finding partition_distance:mixed-layout:
+        # the two vectors are broadcast against each other into an N x N joint table)
+        if n >= 2 and ctx.rng.random() < 0.2:
+            lay = {'1-D': lambda v: np.array(v, dtype=np.int64), '1xN': lambda v: np.array(v, dtype=np.int64).reshape(1, -1),
+                   'Nx1': lambda v: np.array(v, dtype=np.int64).reshape(-1, 1)}
+            for la, lb in (('1xN', '1xN'), ('Nx1', 'Nx1'), ('1xN', '1-D'), ('1-D', '1xN'), ('Nx1', '1-D'), ('1-D', 'Nx1'), ('1xN', 'Nx1'), ('Nx1', '1xN')):
+                mixed = (la == 'Nx1') != (lb == 'Nx1')
+                lcase = dict(case, layout=[la, lb])
+                ctx.count('partition_distance:layout:%s,%s' % (la, lb))
+                try:
+                    with no_variants():
+                        alt = call(bct.partition_distance, lay[la](cx), lay[lb](cy))
+                    ok = np.shape(alt[0]) == () and np.shape(alt[1]) == () and close([float(alt[0]), float(alt[1])], [vin, mi])
+                except Exception as e:
+                    if mixed:
+                        ctx.count('partition_distance:layout-mixed-raises'); continue
+                    ctx.fail('partition_distance:label-container', 'raised %r when the labels come as %s / %s arrays' % (e, la, lb), lcase); continue
+                ctx.check(ok, 'partition_distance:mixed-layout' if mixed else 'partition_distance:label-container',
+                          'cx given as %s, cy as %s: (VIn, MIn) = %s, the same labels as 1-D vectors give (%r, %r)' % (la, lb, tolist(alt), vin, mi), lcase)
         if with_model:
             model('pd %s %s' % (enc_list(cx, enc_zb), enc_list(cy, enc_zb)), 'pd', case, (vin, mi, trivial))
 
